@@ -174,11 +174,18 @@ impl<'a> Dfa<'a> {
     fn minimize(&mut self) {
         let mut p = self.get_initial_partition();
         let mut w = p.iter().cloned().collect_vec();
+        // Use the labels the edges actually carry. Ranges such as a{2,3} are created while
+        // inserting the test cases and are not part of the alphabet.
+        let edge_labels = self
+            .graph
+            .edge_weights()
+            .cloned()
+            .collect::<BTreeSet<Grapheme>>();
 
         while !w.is_empty() {
             let a = w.drain(0..1).next().unwrap();
 
-            for edge_label in self.alphabet.iter() {
+            for edge_label in edge_labels.iter() {
                 let x = self.get_parent_states(&a, edge_label);
                 let mut replacements = vec![];
                 let mut is_replacement_needed = true;
@@ -247,8 +254,8 @@ impl<'a> Dfa<'a> {
                 let edge = self.graph.find_edge(parent_state, state).unwrap();
                 let grapheme = self.graph.edge_weight(edge).unwrap();
                 if grapheme.chars() == label.chars()
-                    && (grapheme.maximum() == label.maximum()
-                        || grapheme.minimum() == label.minimum())
+                    && grapheme.maximum() == label.maximum()
+                    && grapheme.minimum() == label.minimum()
                 {
                     x.insert(parent_state);
                     break;
